@@ -37,6 +37,15 @@ var nsqdCommands = []string{"IDENTIFY", "FIN", "RDY", "REQ", "PUB", "MPUB", "DPU
 func dispatchTable(fn *ssa.Function) map[string]string {
 	out := map[string]string{}
 	an.Instrs(fn, func(in ssa.Instruction) {
+		// `switch string(params[0]) { case "FIN": … }`: string equality tests
+		if b, isB := in.(*ssa.BinOp); isB && b.Op == token.EQL {
+			if s, isS := an.ConstString(b.Y); isS && s != "" {
+				for _, t := range an.BoolTests(b) {
+					out[s] = dispatchedFrom(fn, t.True)
+				}
+			}
+			return
+		}
 		call, ok := in.(*ssa.Call)
 		if !ok || !an.StdCallee(call, "bytes", "Equal") {
 			return
